@@ -10,11 +10,18 @@ from harness.core import coq_bool, coq_list, coq_str
 FLAGS = ["ack", "fin", "psh", "rst", "syn", "urg"]
 PL = {"ios": "Ios", "nxos": "Nxos", "asa": "Asa"}
 PROTO_POOL = [0, 0, 6, 6, 6, 17, 17, 1, 47, 50, 89, 4, 41, 99, 200, 255]
+# every number that carries a TCP or UDP name in the reference tables (spec/Reference.v)
+NAMED_PORTS = [7, 9, 13, 19, 20, 21, 22, 23, 25, 37, 42, 43, 49, 53, 67, 68, 69, 70, 79, 80, 101, 109, 110, 111, 113,
+               119, 123, 135, 137, 138, 139, 143, 161, 162, 177, 179, 194, 195, 389, 434, 443, 496, 500, 512, 513, 514,
+               515, 517, 520, 521, 540, 543, 544, 554, 636, 750, 1352, 1494, 1521, 1645, 1646, 1720, 1723, 2049, 2748,
+               3020, 3949, 4500, 4789, 5060, 5190, 5510, 5631, 5632, 15001, 15002]
 
 
 def rand_port(rnd, plat):
     op = rnd.choice(["eq", "eq", "neq", "gt", "lt", "range", "range"])
     grid = [1, 2, 22, 80, 443, 1023, 1024, 65534, 65535]
+    if rnd.random() < 0.35:   # ports that have a name on some platform / version table
+        grid = NAMED_PORTS
     if op in ("eq", "neq"):
         n = 1 if plat != "ios" else rnd.choice([1, 1, 2, 3])
         xs = sorted(rnd.sample(grid + [rnd.randint(1, 65535) for _ in range(3)], n))
